@@ -717,6 +717,7 @@ func ProfileByName(name string) Profile {
 	case "C19":
 		p.PTopPtrRecord = 8
 		p.PLongOneOf = 20
+		p.PStructIn = 35
 		p.PDefault = 45
 		p.PSlice = 35
 		p.PPT = 30
